@@ -6,6 +6,7 @@ from .rules import c08 as R_c08
 from .rules import c05 as R_c05
 from .rules import cas as R_cas
 from .rules import c10 as R_c10
+from .rules import c06 as R_c06
 
 Q = ("quick", "thorough")
 T = ("thorough",)
@@ -166,5 +167,23 @@ PROPS = {
         technique="alias/provenance (taint) analysis of attribute stores with one-level interprocedural summaries + who-may-write effect scan",
         trusted_base=["provenance classifier in vstat/rules/c10.py", "vstat.callgraph"],
         assumptions=["module-level bindings of env* modules are shared expression objects"],
+    ),
+    "C06": dict(
+        title="Instruction semantics match the architecture (x86: the CPU, RISC-V: the manual)",
+        explanation=(
+            "Decides, for RISC-V: (R-ISATAB) the rv32i/rv64i decode tables equal the ISA manual's encoding table "
+            "(ref/riscv_base.json): opcode/funct fields, nothing fixed that the ISA leaves variable, rd/rs1/rs2 placement, "
+            "immediate bit coverage, concatenation order, scaling and sign; (R-PC) every semantics function advances pc exactly "
+            "once on every path and pc-relative semantics read the instruction's own pc; (R-SIGNED) signed/unsigned ordered "
+            "comparisons are marked as the manual requires; (R-RAW) sources are read before rd is written. For x86/x64: (R-CCTAB) "
+            "the condition-code table used by Jcc/SETcc/CMOVcc has the SDM truth tables (all 32 flag valuations). Does NOT decide "
+            "ALU results, flag formulas, sub-register write rules, memory effects: anything needing a CPU or a reference interpreter."
+        ),
+        rules=[(R_c06.r_isatab, Q), (R_c06.r_pc, Q), (R_c06.r_signed, Q), (R_c06.r_raw, Q), (R_c06.r_cctab, Q)],
+        level_text="partial: table = reference comparison over all 106 shipped RISC-V base specs and 32 condition-code rows, typestate counting of pc stores over the CFG of 74 semantics functions, hazard (read-after-write) scan over 68; the tests decode no RISC-V instruction at all",
+        level_note="Trusted: ref/riscv_base.json and ref/x86_cc.json (written from the manuals); vstat.ispecmodel for bit positions; `//` in setup functions is crysp Bits concatenation LSB-first. A base instruction with no shipped spec is listed in the evidence, not alarmed.",
+        technique="table = vendored reference comparison, typestate (store counting) on CFG, def-use hazard scan, exhaustive truth-table evaluation of a dict literal",
+        trusted_base=["ref/riscv_base.json", "ref/x86_cc.json", "vstat.ispecmodel"],
+        assumptions=["x86 semantics other than the condition table are out of static reach"],
     ),
 }
